@@ -29,9 +29,9 @@ type c08case struct {
 	State    int    `json:"state,omitempty"` // 0: the fixed start tree; >0: a seeded random start tree (thorough)
 }
 
-var c08bases = []string{"os", "mem", "mount"}
+var c08bases = []string{"os", "mem", "mount", "mount-os"}
 
-var c08targets = []string{"f", "d", "e", "new", "nope/new", "f/x", ".", "d/x", "d/sub/deeper"}
+var c08targets = []string{"f", "d", "e", "new", "nope/new", "f/x", ".", "d/x", "d/sub/deeper", "ln"}
 
 // helper -> the Step kinds that invoke it
 func c08step(helper, target string) fsx.Step {
@@ -71,7 +71,7 @@ func c08native(base string) uint32 {
 	}
 	m, _ := mem.NewFS()
 	mf, _ := mount.NewFS(m)
-	return capfs.Native(mf)
+	return capfs.Native(mf) // mount and mount-os
 }
 
 func c08build() {
@@ -141,6 +141,10 @@ func init() {
 	})
 }
 
+// c08withLink: the start tree contains a symbolic link (only for the helpers whose contract distinguishes links:
+// Lstat and Stat; LstatOrStat is by contract 'whichever is supported' and the removal fallbacks are not link-aware).
+var c08withLink bool
+
 type c08world struct {
 	fs      hackpadfs.FS // wrapped
 	base    *capfs.Base
@@ -154,7 +158,7 @@ var c08items = []treeItem{{Path: "d", Dir: true, Perm: 0o755}, {Path: "d/x", Per
 func newC08World(env *core.Env, base string, off, fileOff uint32, state ...int) (*c08world, error) {
 	w := &c08world{cleanup: func() {}}
 	switch base {
-	case "os":
+	case "os", "mount-os":
 		d, err := os.MkdirTemp(env.Scratch, "c08-")
 		if err != nil {
 			return nil, err
@@ -201,6 +205,18 @@ func newC08World(env *core.Env, base string, off, fileOff uint32, state ...int) 
 		}
 		hs.CloseAll()
 	}
+	if (base == "os" || base == "mount-os") && c08withLink {
+		// a symbolic link, so that Lstat and Stat can be told apart
+		_ = hackpadfs.Symlink(w.inner, "f", "ln")
+	}
+	if base == "mount-os" {
+		// a mount.FS with the os.FS as its root and nothing mounted: every helper goes through the MountFS branch
+		mf, err := mount.NewFS(w.inner)
+		if err != nil {
+			return nil, err
+		}
+		w.inner = mf
+	}
 	nat := capfs.Native(w.inner)
 	fsys, b, err := capfs.New(w.inner, nat&^off, capfs.AllFile&^fileOff)
 	if err != nil {
@@ -244,10 +260,11 @@ func c08apply(w *c08world, cs c08case, failAt int) (fsx.Result, fsx.Snap, []stri
 func c08run(env *core.Env, idx int) core.CaseResult {
 	c08build()
 	cs := c08list[idx%len(c08list)]
+	c08withLink = cs.Helper == "Lstat" || cs.Helper == "Stat"
 	cs.State = idx / len(c08list)
 	var res core.CaseResult
 	res.Key = core.Hash(cs)
-	if cs.Helper == "Symlink" && cs.Base != "os" {
+	if cs.Helper == "Symlink" && cs.Base != "os" && cs.Base != "mount-os" {
 		return res
 	}
 	hidden := capfs.MaskString(cs.Off, capfs.FSInterfaces)
@@ -261,7 +278,11 @@ func c08run(env *core.Env, idx int) core.CaseResult {
 	wit := map[string]any{"case": cs, "hidden": hidden, "target": target}
 	sig := func(what string) string { return fmt.Sprintf("C08|%s|%s|hidden=%s|%s", cs.Base, cs.Helper, hidden, what) }
 
-	full, err := newC08World(env, cs.Base, 0, 0, cs.State)
+	fullBase := cs.Base
+	if cs.Base == "mount-os" {
+		fullBase = "os" // reference: the os.FS applied directly (everything native)
+	}
+	full, err := newC08World(env, fullBase, 0, 0, cs.State)
 	if err != nil {
 		res.Inconclusive = "setup: " + err.Error()
 		return res
